@@ -3061,7 +3061,7 @@ QXMPP_PRIVATE_DEFINE_RULE_OF_SIX(QXmppJingleMessageInitiationElement)
 ///
 bool QXmppJingleMessageInitiationElement::isJingleMessageInitiationElement(const QDomElement &element)
 {
-    return stringToJmiElementType(element.tagName()).has_value() && element.hasAttribute(u"id"_s) && element.namespaceURI() == ns_jingle_message_initiation;
+    return stringToJmiElementType(element.tagName()).has_value() && !element.attribute(u"id"_s).isEmpty() && element.namespaceURI() == ns_jingle_message_initiation;
 }
 
 ///
@@ -3335,7 +3335,7 @@ bool QXmppCallInviteElement::isCallInviteElement(const QDomElement &element)
 {
     return stringToCallInviteElementType(element.tagName()).has_value() &&
         // "invite" tags don't have an ID yet.
-        (element.hasAttribute(u"id"_s) || element.tagName() == callInviteElementTypeToString(Type::Invite)) &&
+        (!element.attribute(u"id"_s).isEmpty() || element.tagName() == callInviteElementTypeToString(Type::Invite)) &&
         element.namespaceURI() == ns_call_invites;
 }
 
